@@ -43,6 +43,8 @@ enum ArgVal {
     Str(String),
     String(String),
     Cow(String),
+    CowOwned(String),
+    RefString(String),
     U8(u8),
     U16(u16),
     U32(u32),
@@ -59,6 +61,8 @@ impl ArgVal {
             ArgVal::Str(s) => cmd.add_argument(s.as_str()).is_ok(),
             ArgVal::String(s) => cmd.add_argument(s.clone()).is_ok(),
             ArgVal::Cow(s) => cmd.add_argument(Cow::Borrowed(s.as_str())).is_ok(),
+            ArgVal::CowOwned(s) => cmd.add_argument(Cow::<str>::Owned(s.clone())).is_ok(),
+            ArgVal::RefString(s) => cmd.add_argument(s).is_ok(),
             ArgVal::U8(v) => cmd.add_argument(*v).is_ok(),
             ArgVal::U16(v) => cmd.add_argument(*v).is_ok(),
             ArgVal::U32(v) => cmd.add_argument(*v).is_ok(),
@@ -72,7 +76,7 @@ impl ArgVal {
     /// bytes this value renders to contain a line feed (⇒ must be rejected)
     fn has_lf(&self) -> bool {
         match self {
-            ArgVal::Str(s) | ArgVal::String(s) | ArgVal::Cow(s) => s.contains('\n'),
+            ArgVal::Str(s) | ArgVal::String(s) | ArgVal::Cow(s) | ArgVal::CowOwned(s) | ArgVal::RefString(s) => s.contains('\n'),
             ArgVal::Raw(b) => b.contains(&b'\n'),
             _ => false,
         }
@@ -82,6 +86,8 @@ impl ArgVal {
             ArgVal::Str(s) => json!({"str": hex(s.as_bytes())}),
             ArgVal::String(s) => json!({"string": hex(s.as_bytes())}),
             ArgVal::Cow(s) => json!({"cow": hex(s.as_bytes())}),
+            ArgVal::CowOwned(s) => json!({"cow_owned": hex(s.as_bytes())}),
+            ArgVal::RefString(s) => json!({"ref_string": hex(s.as_bytes())}),
             ArgVal::U8(v) => json!({"u8": v}),
             ArgVal::U16(v) => json!({"u16": v}),
             ArgVal::U32(v) => json!({"u32": v}),
@@ -100,6 +106,8 @@ impl ArgVal {
             "str" => ArgVal::Str(s()),
             "string" => ArgVal::String(s()),
             "cow" => ArgVal::Cow(s()),
+            "cow_owned" => ArgVal::CowOwned(s()),
+            "ref_string" => ArgVal::RefString(s()),
             "u8" => ArgVal::U8(x.as_u64()? as u8),
             "u16" => ArgVal::U16(x.as_u64()? as u16),
             "u32" => ArgVal::U32(x.as_u64()? as u32),
@@ -113,7 +121,7 @@ impl ArgVal {
     }
     fn show(&self) -> String {
         match self {
-            ArgVal::Str(s) | ArgVal::String(s) | ArgVal::Cow(s) => format!("{:?}", show_bytes(s.as_bytes())),
+            ArgVal::Str(s) | ArgVal::String(s) | ArgVal::Cow(s) | ArgVal::CowOwned(s) | ArgVal::RefString(s) => format!("{:?}", show_bytes(s.as_bytes())),
             ArgVal::Raw(b) => format!("Raw({:?})", show_bytes(b)),
             other => format!("{other:?}"),
         }
@@ -364,7 +372,7 @@ pub fn run(tier: Tier) -> i32 {
     ctx.assume("user-defined Argument renderers only append bytes to the buffer they are handed");
 
     // names
-    let mut names = strings_over(NAME_SIGMA, tier.pick(3, 4));
+    let mut names = strings_over(NAME_SIGMA, tier.pick(3, 5));
     names.extend(keyword_neighbours());
     let acc_names = names
         .par_chunks(1024)
@@ -378,12 +386,14 @@ pub fn run(tier: Tier) -> i32 {
         .reduce(Acc::default, Acc::merge);
 
     // arguments
-    let strs = strings_over(SIGMA, tier.pick(4, 5));
+    let strs = strings_over(SIGMA, tier.pick(4, 6));
     let mut vals: Vec<ArgVal> = Vec::new();
     for s in &strs {
         vals.push(ArgVal::Str(s.clone()));
         vals.push(ArgVal::String(s.clone()));
         vals.push(ArgVal::Cow(s.clone()));
+        vals.push(ArgVal::CowOwned(s.clone()));
+        vals.push(ArgVal::RefString(s.clone()));
     }
     for v in [0u64, 1, 9, 10, 255, 256, 65535, 65536, u32::MAX as u64, u64::MAX - 1, u64::MAX] {
         vals.push(ArgVal::U8(v as u8));
@@ -397,7 +407,7 @@ pub fn run(tier: Tier) -> i32 {
     for (s, n) in [(0u64, 0u32), (0, 1), (0, 499_999), (0, 500_000), (0, 999_999_999), (1, 0), (2, 345_000_000), (1 << 31, 0), (u64::MAX, 999_999_999)] {
         vals.push(ArgVal::Dur(s, n));
     }
-    for b in bytes_over(&[b'a', b'\n', b'\r', 0xff, b' ', b'"'], tier.pick(4, 6)) {
+    for b in bytes_over(&[b'a', b'\n', b'\r', 0xff, b' ', b'"'], tier.pick(4, 7)) {
         vals.push(ArgVal::Raw(b));
     }
     let acc_args = vals
@@ -414,7 +424,7 @@ pub fn run(tier: Tier) -> i32 {
         .reduce(Acc::default, Acc::merge);
 
     // sequences of add_argument calls
-    let depth = tier.pick(5, 6);
+    let depth = tier.pick(5, 7);
     let mut seqs: Vec<Vec<usize>> = vec![vec![]];
     let mut layer: Vec<Vec<usize>> = vec![vec![]];
     for _ in 0..depth {
@@ -448,11 +458,11 @@ pub fn run(tier: Tier) -> i32 {
     cov.evaluations = acc.evaluations;
     cov.distinct_nontrivial = acc.nontrivial;
     cov.rule = format!(
-        "names: every string of length <= {} over 22 class representatives (incl. 8 non-ASCII numeric / letter-like / space characters) plus every string within edit distance 1 of / prefix / extension of the three list keywords ({} names); arguments: every string of length <= {} over 12 classes through &str/String/Cow, integer/bool/Duration values, user-defined renderers for every byte string of length <= {} over {{a, LF, CR, 0xFF, space, quote}} ({} values x 2 base commands); sequences: every sequence of <= {} add_argument calls over a menu of 4 accepted and 4 rejected values ({} sequences); non-trivial = invalid names, values containing LF or rendered by a user-defined renderer, sequences containing a rejected call",
-        tier.pick(3, 4),
+        "names: every string of length <= {} over 22 class representatives (incl. 8 non-ASCII numeric / letter-like / space characters) plus every string within edit distance 1 of / prefix / extension of the three list keywords ({} names); arguments: every string of length <= {} over 12 classes through &str/String/Cow borrowed and owned/&String, integer/bool/Duration values, user-defined renderers for every byte string of length <= {} over {{a, LF, CR, 0xFF, space, quote}} ({} values x 2 base commands); sequences: every sequence of <= {} add_argument calls over a menu of 4 accepted and 4 rejected values ({} sequences); non-trivial = invalid names, values containing LF or rendered by a user-defined renderer, sequences containing a rejected call",
+        tier.pick(3, 5),
         names.len(),
-        tier.pick(4, 5),
         tier.pick(4, 6),
+        tier.pick(4, 7),
         vals.len(),
         depth,
         seqs.len()
